@@ -21,6 +21,18 @@ def _names(o):
 _ROPS = ("rAdd", "rUpdate", "rDelete", "rAssume", "rForget", "rCacheDelete")
 
 
+def _holder_missing(seg, idx, u, listed):
+    """some pod whose LAST delivered object is bound, running and annotated with reservation u is not among the pods the
+    cache lists for u (structural fact about the history and the observation; API objects survive a restart)"""
+    last = {}
+    for x in seg[:idx]:
+        if x.get("op") in ("podAdd", "podUpdate"):
+            last[x.get("pod")] = x
+        elif x.get("op") == "podDelete":
+            last.pop(x.get("pod"), None)
+    return any(x.get("ra") == u and x.get("pnode") and not x.get("dead") and p not in listed for p, x in last.items())
+
+
 def sig(fl):
     """classify a rejected event (diagnostic label + known-finding key only; the verdict was TLC's).
     Structural facts about the event and the logged observation; no expected values are computed here."""
@@ -54,6 +66,8 @@ def sig(fl):
                 prev = x
         if prev is not None and obs.get("res", {}).get(u, {}).get("pods") and not (_names(e) <= _names(prev)):
             kind = "reserved-dimensions-grew-while-pods-assigned"
+        elif u in obs.get("res", {}) and _holder_missing(seg, idx, u, obs["res"][u].get("pods", [])):
+            kind = "pod-seen-before-its-reservation-not-assigned"     # repaired in reservation/cache.go (orphanPods), C19
     elif op == "fit":
         kind = "fit-verdict"
     return "op=%s kind=%s%s" % (op, kind, (" tag=%s" % e["tag"]) if e.get("tag") else "")
@@ -86,8 +100,10 @@ CONF = {
     "assumptions": [
         "'exists' / 'currently assigned' are read at the cache's entry points: a reservation exists from updateReservation "
         "(informer add / update of an active object, assume of the reserve pod) until DeleteReservation; a pod is assigned by "
-        "assumePod / informer add-update carrying the reservation-allocated annotation of a known reservation and released by "
-        "forgetPods / informer update-delete; refusals of assumePod are taken as answered",
+        "assumePod, or by the informer add-update of a bound, running pod carrying the reservation-allocated annotation of the "
+        "reservation - from the moment both the pod and the reservation are known to the cache, in either arrival order (a pod "
+        "delivered first is remembered until the reservation enters the cache; what a reservation held when it leaves the cache "
+        "is not remembered) - and released by forgetPods / informer update-delete; refusals of assumePod are taken as answered",
         "histories are those the informer and the scheduler of this code base can deliver: per reservation uid the node never changes "
         "while it is cached (no code path re-binds an available reservation; the extended multi-scheduler 'same uid moves to another "
         "node' transition is modelled behind AllowMigrate / VERIF_C05_EXT and NOT part of the verdict); the plugin's handler and the "
